@@ -249,7 +249,24 @@ def st_config(draw, outdir, sources=None, ident_sources=("snoopy_literal", "uid"
     if draw(st.integers(0, 3)) == 0:
         opts.append((b"log_message_max_length", draw(st.sampled_from([b"255", b"300", b"1k", b"0", b"x", b"1m"]))))
     opts = draw(st.permutations(opts))
-    return {"kind": out, "ini": render_ini(opts), "opts": opts}
+    ini = render_ini(opts)
+    feats = []
+    if draw(st.sampled_from([False, False, False, True])):
+        # the same option more than once / continuation lines (the last delivery wins)
+        lines = ini.split(b"\n")[:-1]
+        for _ in range(draw(st.integers(1, 3))):
+            k = draw(st.sampled_from([b"output", b"output", b"message_format", b"filter_chain", b"syslog_ident"]))
+            v = draw(st.sampled_from({b"output": [b"devnull", b"file:" + o + b"/log", b"bogus", b"stdout", b"file", b"socket:" + o + b"/sock", b"noop", b"stderr"],
+                                      b"message_format": [b"dup %{cmdline}", b"%{filename}"], b"filter_chain": [b"noop", b"only_root"],
+                                      b"syslog_ident": [b"i2", b"%{uid}"]}[k]))
+            if draw(st.booleans()):
+                lines.insert(draw(st.integers(1, len(lines))), k + b" = " + v)
+                feats.append("duplicate")
+            else:
+                lines.append(b"   " + v)
+                feats.append("continuation")
+        ini = b"\n".join(lines) + b"\n"
+    return {"kind": out, "ini": ini, "opts": opts, "feats": feats}
 
 
 OUT = b"@OUT@"   # placeholder for the driver's private sink directory (keeps cases replayable)
